@@ -234,16 +234,14 @@ Proof.
     intros i Hi Hne. apply (Hrows (S i)); [lia|exact Hne].
 Qed.
 
-(** The same function on 1-D predictions broadcasts (N,) against (N,1) to (N,N): rows are
-    NOT masked individually (kept visible; used inside model_based_encoder_loss, see C03). *)
-Theorem masked_mse_1d_refuted : exists (p t mask : list R),
-  length p = length t /\ length mask = length p /\
-  masked_mse_loss (T1 p) (T1 t) mask <>
-  Ok (nmean (zipw (fun x m => x * m) (zipw sqerr p t) mask)).
+(** 1-D predictions (as used for the termination and reward predictions of the model-based
+    encoder): every sample is weighted by its own mask entry. *)
+Theorem masked_mse_1d (p t mask : list R) : length p = length t -> length mask = length p ->
+  masked_mse_loss (T1 p) (T1 t) mask = Ok (nmean (zipw (fun x m => x * m) (zipw sqerr p t) mask)).
 Proof.
-  exists [1; 0], [0; 0], [0; 1]. repeat split; try reflexivity.
-  unfold masked_mse_loss. cbn. intro H. injection H as H. unfold nmean, nsum, nofnat in H. cbn in H.
-  unfold Q2R in H. cbn in H. lra.
+  intros H1 H2. unfold masked_mse_loss. cbn [bop]. rewrite bzip_same by exact H1. cbn [rbind rmap].
+  unfold tmul. cbn [bop]. rewrite bzip_same by (unfold zipw; rewrite map_length, combine_length; lia).
+  reflexivity.
 Qed.
 
 (* ------------------------------------------------------------------ *)
